@@ -274,7 +274,10 @@ def run(case, preempt=None):
 
                     def read_value(self):
                         dev_polls.append(dsched.v_time())
-                        self.communicate('p')
+                        try:
+                            self.communicate('p')
+                        finally:
+                            out.setdefault('dev_poll_ends', []).append(dsched.v_time())
                         return 1.0
                 dev = Dev('dev', L(), {'description': 'device', 'io': 'io', 'pollinterval': {'value': INTERVAL}}, srv)
                 dev.attachedModules['io'] = io
@@ -501,8 +504,12 @@ def check(ctx, case):
         for k, t in enumerate(established[1:], 1):
             # (a poll under way at the time of the reconnect - begun before, waiting for the callers holding the communicator - whose
             # command reaches the device on the new connection is polling resumed as well)
-            straddling = any(tc >= t and max([p for p in out['dev_polls'] if p <= tc] or [tc]) < t for tc in polls_seen)
-            if t + TIMEOUT + 1 < out.get('end_time', 0) and not straddling and not any(t <= p <= t + TIMEOUT + 1 for p in out['dev_polls']):
+            ends = out.get('dev_poll_ends', [])
+            under_way = [(p, ends[n_] if n_ < len(ends) else float('inf')) for n_, p in enumerate(out['dev_polls']) if p < t and (n_ >= len(ends) or ends[n_] > t)]
+            straddling = any(any(t <= tc <= e for tc in polls_seen) for _, e in under_way)
+            # (the poll thread is busy until that poll is over: the time for the next one counts from there)
+            free = max([t] + [e for _, e in under_way])
+            if free + TIMEOUT + 1 < out.get('end_time', 0) and not straddling and not any(t <= p <= free + TIMEOUT + 1 for p in out['dev_polls']):
                 nxt = min([p for p in out['dev_polls'] if p > t] or [float('inf')])
                 ctx.finding(f'polling-not-resumed-after-reconnect:{"first" if k == 1 else "later"}', case,
                             f'reconnect {k} at {t - s.t0:.2f}: next poll at {nxt - s.t0:.2f}')
